@@ -931,8 +931,12 @@ impl rustc_driver::Callbacks for Cb {
                 }
                 DefKind::Const { .. } | DefKind::AssocConst { .. } => {
                     let env = TypingEnv::post_analysis(tcx, did);
+                    // an associated const that a trait only declares (`const CLEAR: Self;`) has no
+                    // body to evaluate - asking for one is an internal compiler error
+                    let has_value = !matches!(tcx.def_kind(did), DefKind::AssocConst { .. })
+                        || tcx.defaultness(did).has_value();
                     let val = std::panic::catch_unwind(std::panic::AssertUnwindSafe(|| {
-                        tcx.const_eval_poly(did)
+                        if has_value { tcx.const_eval_poly(did) } else { Err(rustc_middle::mir::interpret::ErrorHandled::TooGeneric(tcx.def_span(did))) }
                     }));
                     let mut jv = J::Null;
                     if let Ok(Ok(cv)) = val {
